@@ -56,6 +56,7 @@ pub fn worker_main(req_fd: i32, resp_fd: i32, feat: &Value) -> ! {
         eprintln!("pv worker: seccomp failed: {e}");
         unsafe { libc::_exit(97) };
     }
+    unsafe { libc::umask(0o022) };
     let req = unsafe { std::fs::File::from_raw_fd(req_fd) };
     let mut resp = unsafe { std::fs::File::from_raw_fd(resp_fd) };
     let mut rd = BufReader::new(req);
